@@ -123,4 +123,27 @@ PROPS = {
         "exhaustive_note": "Boolean: complete. Real/complex/expected-utility/rational: all triples over the stated finite grids. Finite fields: all triples over the stated boundary sets for each of the seven exported primes. Polynomials: sampled.",
         "assumptions": ASSUME_COMMON + ["S10: FiniteField::negate is 1-v (hash complement) and is not tested as an additive inverse", "S11: rational values are naturals reachable from one/zero"],
     },
+    "C14": {
+        "profiles": {"quick": ["mon"], "thorough": ["mon", "monrel"]},
+        "scale": {"quick": 1, "thorough": 30},
+        "floors": {
+            "quick": {"orders_checked": 5000, "dtrees": 3000, "dtree_nodes": 20000, "vtrees_from_dtree": 3000, "managers": 400,
+                      "lca_pairs": 50000, "shapes_enumerated": 65},
+            "thorough": {"dtrees": 100000},
+        },
+        "rule": "One evaluation = one derived object inspected structurally and compared with its definition recomputed from the CNF: (orders) linear, min-fill, FORCE, explicit and new_last-extended orders are permutations of 0..n with get/var_at_level mutually inverse, in_order_iter/lt/lte consistent; (dtrees) for each CNF and elimination order (every permutation for <= 4 variables; linear/min-fill/FORCE/random up to 12) the leaves are exactly the CNF's clauses, vars(node) = vars(l) | vars(r), internal cutsets = (vars(l)&vars(r)) minus ancestor cutsets and leaf cutsets = clause variables minus ancestor cutsets; (vtree from dtree) every CNF variable exactly once; (vtree manager) for every tree shape on <= 6 leaves (random labelling) and random shapes up to 12 leaves: var_index = in-order index, vtree(idx) structurally equal to the in-order node, lca for ALL node pairs against a range-based reference, prime/sub relation against left/right position (indices, variables, pointers), num_vars = number of leaves on dense label sets (S12). CNFs include unit and duplicate clauses, tautological clauses, disconnected components and unused variable indices. Every case is non-trivial; distinct = distinct inputs.",
+        "exhaustive_note": "all vtree shapes on 1..6 leaves (65 shapes) and, per sampled CNF over <= 4 variables, all elimination orders are enumerated; CNFs and larger trees are sampled",
+        "assumptions": ASSUME_COMMON + ["S9: no empty clause / empty formula for DTree::from_cnf, FORCE and min-fill (outside the listed domain)", "S12: num_vars is only compared on label sets that are a permutation of 0..k"],
+    },
+    "C15": {
+        "profiles": {"quick": ["mon"], "thorough": ["mon", "monrel"]},
+        "scale": {"quick": 1, "thorough": 30},
+        "floors": {
+            "quick": {"cnfs": 1400, "evals": 10000, "conditions": 4000, "wmcs": 2800, "is_sat_partial": 8000, "model_steps": 30000,
+                      "literals": 50000, "hashes": 10000, "residual_repeats": 2000, "hasher_histories": 700, "edge_cases": 8},
+            "thorough": {"cnfs": 40000},
+        },
+        "rule": "One evaluation = one generated object checked against its set-theoretic definition: (cnf) Cnf::new keeps each clause as the given literal set and num_vars = max label + 1; eval on every assignment, condition(lit) for every literal (compared with the cofactor of the truth table), brute-force wmc in the real and 64-bit-field semirings against the exact sum over models (incl. the empty formula and formulas with empty clauses, regime edge), is_sat_partial for random partial models (implies 'every extension satisfies'; equivalence on CNFs without tautological clauses, S7); (models) PartialModel and VarSet driven through random set/unset/insert/remove histories against HashMap/HashSet models, all accessors, iterators, constructors and set operations compared after every step; (literals) label/polarity round trip for labels up to 2^63-1; (hasher) CnfHasher driven through random push/decide/pop histories, hash(m) for random models m extending the decisions that falsify no clause: a map residual-family -> hash and a map hash -> residual-family must both stay functional (the second only while the product of all occurrence primes is < 2^128, S5). Non-trivial = CNF neither constant nor literal (cnf regime) / every history (others); distinct = distinct inputs.",
+        "assumptions": ASSUME_COMMON + ["S5: residuals are compared as families indexed by clause position", "S7: is_sat_partial is syntactic"],
+    },
 }
